@@ -276,14 +276,14 @@ fn parse_and_compare(text: &str, expected: &AstNode, names: &BTreeSet<String>) -
 /// a finding is identified by its cause and any other failure keeps a specific key of its own.
 fn diagnose(text: &str, layout: Layout, t: &T) -> Option<&'static str> {
   // (1) `function` must be followed by `(` after white space only: a comment there is rejected
-  if matches!(layout, Layout::BlockComments | Layout::LineComments | Layout::CommentShapes | Layout::TwoComments) && contains_function(t) {
+  if matches!(layout, Layout::BlockComments | Layout::LineComments | Layout::LineCommentsOtherBreaks | Layout::CommentShapes | Layout::TwoComments) && contains_function(t) {
     return Some("layout:comment-between-function-keyword-and-parenthesis");
   }
   // the every-white-space layout is diagnosed on its ordinary-space form
   let normalised: String = if matches!(layout, Layout::EveryWhiteSpace) { text.chars().map(|c| if crate::term::FEEL_WHITE_SPACE.contains(&c) { ' ' } else { c }).collect() } else { text.to_string() };
   // (4) NAME . NAME . NAME directly after `[` or `(` is taken for the start of an interval
   {
-    let plain = strip_block_comments(&normalised).replace("// c ) \"\n", " ").replace("// b )\n", " ");
+    let plain = strip_block_comments(&normalised).replace("// c ) \"\r\n", " ").replace("// c ) \"\r", " ").replace("// c ) \"\n", " ").replace("// b )\n", " ");
     let toks: Vec<&str> = plain.split_whitespace().collect();
     let compact: String = toks.join("");
     let bytes: Vec<char> = compact.chars().collect();
@@ -382,7 +382,7 @@ fn after_instance_type(text: &str) -> Option<(&str, usize)> {
   loop {
     if let Some(r) = rest.strip_prefix("/*").and_then(|r| r.find("*/").map(|e| &r[e + 2..])) {
       rest = r.trim_start();
-    } else if let Some(r) = rest.strip_prefix("//").and_then(|r| r.find('\n').map(|e| &r[e + 1..])) {
+    } else if let Some(r) = rest.strip_prefix("//").and_then(|r| r.find(|c| c == '\n' || c == '\r').map(|e| &r[e + 1..])) {
       rest = r.trim_start();
     } else {
       break;
@@ -428,7 +428,7 @@ fn callee_is_keyword_literal(t: &T) -> bool {
 
 fn check_tree(run: &Run, label: &str, t: &T, names: &BTreeSet<String>, counters: &Counters) {
   let expected = to_ast(t);
-  let layouts = [Layout::Spaced, Layout::Compact, Layout::Double, Layout::NewlinesTabs, Layout::BlockComments, Layout::LineComments, Layout::EveryWhiteSpace, Layout::LongRuns, Layout::TwoComments, Layout::CommentShapes];
+  let layouts = [Layout::Spaced, Layout::Compact, Layout::Double, Layout::NewlinesTabs, Layout::BlockComments, Layout::LineComments, Layout::EveryWhiteSpace, Layout::LongRuns, Layout::TwoComments, Layout::CommentShapes, Layout::LineCommentsOtherBreaks];
   for mode in [Mode::Full, Mode::Minimal] {
     for layout in layouts {
       let text = render(t, mode, layout);
